@@ -490,7 +490,11 @@ REGISTRY = {
         "corr": lambda tier, seed: corr_merge_results(
             corr_engine("C14", tier, seed, "restarts,batches,merges,bigvals,hostilesome", 60, 1500, ops=25,
                         dflags=NOEV, oracle_props=["C14", "C09", "C15", "C01"], extra="-variants 3"),
-            corr_iter("C14", tier, seed)),
+            corr_merge_results(corr_iter("C14", tier, seed),
+                               # recovery after the process died must not depend on the I/O type either (a memory-mapped
+                               # file keeps its pre-allocated size): crash scenarios under both back-ends, file limits
+                               # above the pre-allocation included
+                               corr_crash("C14", tier, seed + 5, ["plain"], 14, 300, oracle_props=["C03", "C14"]))),
         "assumptions": ["the engine model has no index type / shard count parameter: every real configuration is compared with the same model run, and the lock-step variants with each other",
                         "byte-identical file layout across sync strategy / I/O type is not proved; layouts are compared with the model (positions, file sizes) in the C17/C11 checks"],
     },
